@@ -201,4 +201,41 @@ def HTS.okRun (tp : TParams) : HdS → List h4_HLbl → Prop
   | _, [] => True
   | s, l :: rest => HTS.ok s l ∧ HTS.okRun tp (HTS.step tp s l) rest
 
+/-! ### the packet clause as a promise of the environment only
+
+`HTS.ok`'s one remaining clause about channels ("the packet handed to `.incoming` carries no
+channel or a valid one") mentions the channel table. It follows (`HL.okRun_of_okRunSent`,
+SimVerif/Lemmas/HandlersWire.lean) from a promise that mentions only what was put on the wire:
+*the network hands in — delivers, or reports as dropped — only packets whose channel id some
+forwarded packet carried before* (`wire`: ghost list of those ids). Drop notifications are
+included because `packet_dropped` queues the reported packet and the ACK path sends it again. -/
+
+/-- the channel ids carried by the packets an effect list puts on the wire -/
+def wireOf : List NEff → List Nat
+  | [] => []
+  | .forward p :: rest => p.chan.toList ++ wireOf rest
+  | _ :: rest => wireOf rest
+
+/-- `p` carries no channel id, or one that was on the wire -/
+def pktSent (wire : List Nat) (p : Pkt) : Prop := ∀ c, p.chan = some c → c ∈ wire
+
+/-- the promise of the environment, per label -/
+def HTS.okEnv (wire : List Nat) : h4_HLbl → Prop
+  | .incoming _ _ p => pktSent wire p
+  | .dropped _ p => pktSent wire p
+  | .runWrite _ _ mid _ => ∀ p, WMid.drop p ∈ mid → pktSent wire p
+  | _ => True
+
+/-- `HTS.ok` without its packet clause: the preconditions of the code -/
+def HTS.okCode (s : HdS) : h4_HLbl → Prop
+  | .incoming _ _ _ => True
+  | l => HTS.ok s l
+
+/-- a run in which the code's preconditions hold and the environment keeps its promise; `w` is
+    the ghost list of channel ids on the wire so far -/
+def HTS.okRunSent (tp : TParams) : HdS → List Nat → List h4_HLbl → Prop
+  | _, _, [] => True
+  | s, w, l :: rest =>
+    HTS.okCode s l ∧ HTS.okEnv w l ∧ HTS.okRunSent tp (HTS.step tp s l) (w ++ wireOf (l.eff tp s.n).2) rest
+
 end SimVerif
